@@ -342,14 +342,57 @@ def conclude(ctx, mod, proof, sanity, result, wall):
 
 
 def replay(mod, pid, path):
+    """Re-executes the stored failing inputs on the implementation and on the model and prints both sides."""
+    from harness import core
     obj = json.load(open(path))
     if hasattr(mod, "replay"):
         return mod.replay(obj)
-    print(json.dumps(obj, indent=1)[:4000])
+    print("replay of %s (%s)" % (path, obj.get("kind")))
+    for k in ("no_longer_checks", "broken_proof_stage"):
+        if obj.get(k):
+            print("  no longer checks:", obj[k])
+    n = 0
+    for f in obj.get("failures", []) + obj.get("correspondence_disagreements", []):
+        inp = f.get("input", f)
+        fn, args, types = inp.get("fn"), inp.get("args"), inp.get("types")
+        print("-", f.get("what", "model/implementation disagreement"))
+        if fn in core.FUNCS and args is not None and types and len(types) == len(args):
+            vals = tuple(arg_decode(a, t) for a, t in zip(args, types))
+            i = core.impl_call(fn, vals)
+            line = core.model_line(fn, vals)
+            randomised = fn in ("encode_pinblock_iso_3", "encode_pin_field_iso_4", "encipher_pinblock_iso_4")
+            m = ("n/a", "randomised") if randomised else core.parse_model(core.run_model([line], nproc=1)[0])
+            print("    call     :", fn, [repr(v)[:70] for v in vals])
+            print("    impl now :", i)
+            print("    model    :", m)
+            print("    expected :", f.get("expected"), "| observed at detection:", f.get("observed"))
+            n += 1
+        else:
+            print("    ", json.dumps(inp, default=str)[:1200])
+            print("    expected :", str(f.get("expected"))[:300], "| observed:", str(f.get("observed"))[:300])
+    print("%d call(s) re-executed" % n)
     return 0
 
 
 # ------------------------------------------------------------------ helpers for call-style properties
+def arg_type(a):
+    return "bytes" if isinstance(a, (bytes, bytearray)) else "str" if isinstance(a, str) else "none" if a is None else \
+        "bool" if isinstance(a, bool) else "int"
+
+
+def arg_decode(text, typ):
+    from harness import core
+    if typ == "bytes":
+        return core.unshow_bytes(text)
+    if typ == "str":
+        return core.unshow_str(text)
+    if typ == "none":
+        return None
+    if typ == "bool":
+        return text == "1"
+    return int(text)
+
+
 def call_result(cases, check_impl=None, nontrivial=None, rule="", model_args=None, extra_samples=3):
     """cases: list of (fn, args), executed on the implementation IN ORDER, repeats included (so that state
     left behind by an earlier call - a cache, a buffered cipher context - shows up); the model, being a pure
@@ -385,7 +428,7 @@ def call_result(cases, check_impl=None, nontrivial=None, rule="", model_args=Non
             v = check_impl(fn, args, i)
             if v:
                 v = dict(v)
-                v["input"] = {"fn": fn, "args": [core.show(a) for a in args]}
+                v["input"] = {"fn": fn, "args": [core.show(a) for a in args], "types": [arg_type(a) for a in args]}
                 if not first:
                     v["note"] = "this call repeats an earlier call of the same run (history dependent?)"
                 viol.append(v)
